@@ -905,7 +905,15 @@ fn execute_sweep<T: Sem>(plan: &Plan, hooks: &Hooks, prop: &str, stats: &mut Sta
         // bit flips: the per-execution cost is dominated by validation of points
         // (containers of zero-sized elements: a flipped length prefix means up to 2^64
         // iterations that read nothing; not judged, so not generated)
-        let flip_bytes = if hooks.zst_elems { 0 } else { size.min(if hooks.budget < 8 { 100 } else { 700 }) };
+        let flip_bytes = if hooks.zst_elems {
+            0
+        } else {
+            size.min(match hooks.budget {
+                0 => 12,
+                1..=7 => 100,
+                _ => 700,
+            })
+        };
         for pos in 0..flip_bytes {
             for bit in 0..8u8 {
                 sub.class = Class::Corrupt;
